@@ -206,10 +206,20 @@ def run(prog, rep, tier):
     RATL = RAT              # the ratio vector as the loop sees it: the parameter, or a converted copy holding the same numbers
     rescaled = None
     src = None
+    # for fold, ratio in zip(folds, ratios) / for i, (fold, ratio) in enumerate(zip(folds, ratios)): fold i travels with ratio i
+    zc = None
+    itz = it[2][0] if it[0] == "ext" and it[1] == "enumerate" and len(it[2]) == 1 and not it[3] else it
+    if itz[0] == "ext" and itz[1] == "zip" and len(itz[2]) == 2 and not itz[3]:
+        for r_, x_ in (itz[2], itz[2][::-1]):
+            if same_ratios(r_) and not same_ratios(x_) and x_[0] in ("comp", "ext") and peeled_iter(it, RAT, same_ratios) is None:
+                zc = {"ratios": r_, "cont": x_, "idx": ("idx", itz) if itz is not it else None}
     if it[0] == "ext" and it[1] == "enumerate" and len(it[2]) == 1:
         src = it[2][0]
     elif it[0] == "ext" and it[1] == "range" and len(it[2]) == 1 and it[2][0][0] == "ext" and it[2][0][1] == "len" and len(it[2][0][2]) == 1:
         src = it[2][0][2][0]
+    if zc is not None:
+        src = None
+        RATL = zc["ratios"]
     if src is not None and src != RAT and peeled_iter(it, RAT, same_ratios) is None:
         # the loop runs over another vector than the caller's ratios (e.g. ratios / sum(ratios)): the fold sizes are then
         # round(n * something else) - with ratios summing to 0.9999999999999999 a tie n * r = k + 0.5 rounds the other way
@@ -222,7 +232,9 @@ def run(prog, rep, tier):
         return
     L = ("ext", "len", (RATL,), ())
     peeled = None            # the loop covers all folds but the last one, which is served after it ("peeled" last iteration)
-    if it == ("ext", "enumerate", (RATL,), ()):
+    if zc is not None:
+        idx, ratio = zc["idx"], ("elem", RATL)
+    elif it == ("ext", "enumerate", (RATL,), ()):
         idx, ratio = ("idx", RATL), ("elem", RATL)
     elif it == ("ext", "range", (L,), ()):
         idx = ("elem", it)
@@ -389,6 +401,8 @@ def run(prog, rep, tier):
         return None
     kind = container_kind(recv[1]) if recv[0] == "sub" and recv[2] == idx else None
     Cn_ = recv[1] if kind is not None else None
+    if zc is not None and kind is None and recv == ("elem", zc["cont"]) and container_kind(zc["cont"]) == "list":
+        Cn_, kind = zc["cont"], "list"            # the list that zip pairs with this ratio
     if peeled is not None and kind is None and recv == peeled.get("dest"):
         # for fold, ratio in zip(folds[:-1], ratios): fold.append(...)
         Cn_ = peeled["container"]
